@@ -564,7 +564,12 @@ def oracle_concurrent(case):
         def convert():
             return jc.dump(value) if case["op"] == "dump" else jc.load(value)
         converts = [convert, convert]
-    references = [render(c()) for c in converts]
+    try:
+        references = [render(c()) for c in converts]
+    except Exception as ex:
+        # the values are plain data (and beans of the domain): converting them alone must not raise
+        fail("C15/%s-raised" % ("dump" if case["op"] != "load" else "load"),
+             "%s of %s raised %s: %s before any concurrency" % (case["op"], repr(value)[:160], type(ex).__name__, ex))
     reference = references[0]
     before = snap(value)
 
